@@ -156,6 +156,12 @@ pub struct World {
     pub trace: Vec<Op>,
     /// record views at every head set / clean moment (C14, C15)
     pub track: bool,
+    /// ground truth for stored array versions: (descriptor uuid, revision) -> ids of the array that
+    /// was submitted when that revision was created (root-level flattened arrays of objects only).
+    /// Revision identifiers are content-derived, so the map is shared by all replicas.
+    pub truth: BTreeMap<(String, String), Vec<String>>,
+    /// updates after which the winning descriptor revision already stood for a different array
+    pub truth_conflicts: Vec<Value>,
 }
 
 pub fn open(store: &Store) -> Result<Melda, String> {
@@ -196,6 +202,8 @@ impl World {
             menu,
             trace: vec![],
             track: false,
+            truth: BTreeMap::new(),
+            truth_conflicts: vec![],
         }
     }
 
@@ -434,8 +442,40 @@ impl World {
         };
         self.trace.push(op.clone());
         self.focus();
+        if let (Op::Upd(_, d), OpOut::Ok(_)) = (op, &out) {
+            self.record_truth(r, *d);
+        }
         self.record_heads(r);
         out
+    }
+
+    /// after a successful update: the winner of every root-level array descriptor holds the submitted order
+    fn record_truth(&mut self, r: usize, d: usize) {
+        let doc = self.menu.docs[d].clone();
+        let Some(o) = doc.as_object() else { return };
+        for (k, v) in o {
+            if !k.ends_with('\u{266D}') {
+                continue;
+            }
+            let Some(arr) = v.as_array() else { continue };
+            let ids: Option<Vec<String>> = arr
+                .iter()
+                .map(|e| e.get("_id").and_then(|i| i.as_str()).map(|s| s.to_string()))
+                .collect();
+            let Some(ids) = ids else { continue };
+            let uuid = format!("^\u{221A}@{}", k);
+            let m = &self.reps[r].m;
+            if let Ok(Ok(w)) = call("get_winner", || m.get_winner(&uuid)) {
+                // an unchanged array keeps its winner: the recorded order must then already be equal
+                match self.truth.get(&(uuid.clone(), w.clone())) {
+                    Some(old) if *old != ids => self.truth_conflicts.push(json!({"uuid": uuid, "revision": w, "stands_for": old, "submitted": ids, "replica": r})),
+                    Some(_) => {}
+                    None => {
+                        self.truth.insert((uuid, w), ids);
+                    }
+                }
+            }
+        }
     }
 
     pub fn view(&self, r: usize) -> Value {
